@@ -15,7 +15,7 @@ MANIFEST = dict(
 
 def configs(tier):
     q = tier == "quick"
-    n = 2000 if q else 30000
+    n = 1600 if q else 30000
     mc = 5 if q else 6
     return [
         dict(name="gen: sock+pipeR read/cancel/close + post", sample=n,
